@@ -276,6 +276,18 @@ class AArr:
     def __neg__(s):
         return Elemwise("negative", (s,))
 
+    def __invert__(s):
+        return Elemwise("logical_not" if _np.dtype(s.dtype) == _np.dtype(bool) else "bitwise_invert", (s,))
+
+    def __and__(s, o):
+        return s._bin(o, "bitwise_and")
+
+    def __or__(s, o):
+        return s._bin(o, "bitwise_or")
+
+    def __abs__(s):
+        return Elemwise("abs", (s,))
+
     def __matmul__(s, o):
         return matmul(s, o)
 
@@ -915,6 +927,18 @@ def tensordot(a, b, axes=2):
         if not (a.shape[i] == b.shape[j]):
             raise ValueError("shape-mismatch for sum")
     shape = tuple(s for d, s in enumerate(a.shape) if d not in a_ax) + tuple(s for d, s in enumerate(b.shape) if d not in b_ax)
+    if not LEDGER.on and len(a_ax) >= 1:
+        # provenance: out[i.., j..] = sum_{k..} a[i.., k..] * b[k.., j..] (contracted axes paired in the order given)
+        a_free = [d for d in range(a.ndim) if d not in a_ax]
+        b_free = [d for d in range(b.ndim) if d not in b_ax]
+        pa = a_free + list(a_ax)
+        pb = list(b_ax) + b_free
+        a_p = View(a, [(d, 0, 1) for d in pa], {}, [a.shape[d] for d in pa])
+        b_p = View(b, [(d, 0, 1) for d in pb], {}, [b.shape[d] for d in pb])
+        a_ = make_slice(a_p, (Ellipsis,) + (None,) * len(b_free))
+        b_ = make_slice(b_p, (None,) * len(a_free) + (Ellipsis,))
+        prod = Elemwise("multiply", (a_, b_))
+        return Reduce("sum", prod, tuple(range(len(a_free), len(a_free) + len(a_ax))), False)
     return Opaque(shape, a.dtype, "tensordot", (a, b))
 
 
@@ -1132,7 +1156,13 @@ class Namespace:
     def tensordot(self, a, b, axes=2):
         return tensordot(a, b, axes)
 
+    def __reduce__(self):
+        # cloudpickle reaches the namespace through the globals of block functions: ship it by reference to the real namespace
+        return (Namespace, (self._real,))
+
     def __getattr__(self, name):
+        if name == "_real" or (name.startswith("__") and name.endswith("__") and "_real" not in self.__dict__):
+            raise AttributeError(name)  # half-constructed object (unpickling): no delegation yet
         if name in ELEMENTWISE:
             def f(*args, **kw):
                 if not any(isinstance(a, AArr) for a in args):
@@ -1452,4 +1482,22 @@ def validate():
             a[(slice(half, SHAPE[0]),)] = x[(slice(half, SHAPE[0]),)]
             assert (conc_eval(a, None) == ref_terms("x", ids)).all()
             cases += 1
+    # tensordot: multiplicity of every a / b element in every output element against NumPy on one-hot operands
+    for (sa, sb, axes) in [((2, 3), (3, 2), 1), ((2, 3, 2), (3, 2, 2), ((1, 2), (0, 1))), ((2, 3, 2), (2, 3, 2), ((2, 1), (0, 1))), ((3,), (3, 2), 1), ((2, 2), (2, 2), ((0,), (1,)))]:
+        a = Src("a", (0,) * len(sa), sa, np.float64)
+        b = Src("b", (0,) * len(sb), sb, np.float64)
+        r = tensordot(a, b, axes=axes)
+        want = np.tensordot(np.ones(sa), np.ones(sb), axes=axes)
+        assert tuple(int(v) for v in r.shape) == want.shape, (sa, sb, axes, r.shape, want.shape)
+        for idx in itertools.product(*[range(int(v)) for v in r.shape]):
+            t = r.at(idx)
+            for j in itertools.product(*[range(v) for v in sa]):
+                oh = np.zeros(sa)
+                oh[j] = 1
+                assert int(term_mult(t, ("a", j))) == int(np.tensordot(oh, np.ones(sb), axes=axes)[idx]), (sa, sb, axes, idx, j)
+            for j in itertools.product(*[range(v) for v in sb]):
+                oh = np.zeros(sb)
+                oh[j] = 1
+                assert int(term_mult(t, ("b", j))) == int(np.tensordot(np.ones(sa), oh, axes=axes)[idx]), (sa, sb, axes, idx, j)
+        cases += 1
     return cases
